@@ -570,3 +570,31 @@ func MariaHeaderSizes() []byte {
 	t[EvMariaGTIDList-1] = 4
 	return t
 }
+
+// Covers56 reports whether the union a is a superset of the union b (both
+// given as ranges per server, any order): after normalisation every range of
+// b must lie inside one range of a for the same server.
+func Covers56(a, b []SIDRanges) bool {
+	ca := canonEntries(a)
+	for _, eb := range canonEntries(b) {
+		var ra []Range
+		for _, ea := range ca {
+			if ea.SID == eb.SID {
+				ra = ea.Ranges
+			}
+		}
+		for _, r := range eb.Ranges {
+			ok := false
+			for _, q := range ra {
+				if q.A <= r.A && r.B <= q.B {
+					ok = true
+					break
+				}
+			}
+			if !ok {
+				return false
+			}
+		}
+	}
+	return true
+}
